@@ -564,6 +564,29 @@ impl TimeZoneDatabase {
             Kind::Bundled(ref db) => db.is_definitively_empty(),
         }
     }
+
+    /// Verification hook, only compiled with `--cfg jiff_verif`.
+    ///
+    /// Sets the time-to-live of cached time zones and of the cached name
+    /// index (and re-stamps everything already cached), so that the cache
+    /// expiry paths can be exercised in milliseconds instead of minutes.
+    /// This is a no-op for the bundled database, which has no cache expiry.
+    #[cfg(all(jiff_verif, feature = "std"))]
+    #[doc(hidden)]
+    pub fn __verif_set_ttl(
+        &self,
+        zones: core::time::Duration,
+        names: core::time::Duration,
+    ) {
+        let Some(inner) = self.inner.as_deref() else { return };
+        match *inner {
+            #[cfg(feature = "tzdb-zoneinfo")]
+            Kind::ZoneInfo(ref db) => db.verif_set_ttl(zones, names),
+            #[cfg(feature = "tzdb-concatenated")]
+            Kind::Concatenated(ref db) => db.verif_set_ttl(zones, names),
+            _ => {}
+        }
+    }
 }
 
 impl core::fmt::Debug for TimeZoneDatabase {
